@@ -44,6 +44,7 @@ func init() {
 			kvLookupCoversAllTables(r)
 			c09ExplicitExpiryWins(r)
 			c09SanitizeKeepsVersions(r)
+			c09RelativeExpiryFromNow(r)
 		},
 	})
 }
